@@ -1,5 +1,6 @@
 mod bench;
 mod checks;
+mod conv;
 mod engine;
 mod imp;
 mod providers;
